@@ -78,6 +78,9 @@ type c01Scenario struct {
 	prefix func(b *drive.Builder)
 	window func(b *drive.Builder) // blocks during which the order choices are explored
 	fetchK int                    // number of transaction entries in the first window block whose fetch order is explored (0 = none)
+	// history: the process that replays the window is itself a choice: before every window block the explorer either lets the
+	// running node continue or replaces it by a freshly started one ("never on the process that computed it")
+	history bool
 }
 
 func c01Scenarios(thorough bool) []c01Scenario {
@@ -211,6 +214,33 @@ func c01Scenarios(thorough bool) []c01Scenario {
 				}
 			}})
 	}
+	// process history: a block without rates inside a window that is longer than the chain (so the count-versus-height
+	// trimming of C09-K1 cannot differ), conversions whose price is bound by the average, restart or not before every block
+	{
+		era := drive.EraStage(drive.StPIP10)
+		era.Name = "pip10-avg16"
+		era.AvgPeriod = 16
+		out = append(out, c01Scenario{name: "process-history/gap-inside-a-long-averaging-window", era: era, history: true,
+			prefix: func(b *drive.Builder) {
+				// with a 16-block window an average needs 8 rated heights: mine first, convert afterwards
+				for i := 0; i < 9; i++ {
+					s := drive.BlockSpec{Rates: R1(), OPRPayTo: A.String()}
+					if i%2 == 1 {
+						s.Rates = R2()
+					}
+					b.Add(s)
+				}
+				b.Add(g(drive.BlockSpec{TX: []fake.Entry{b.Tx(KA, kit.Conversion(A, "PEG", 1000e8, "pUSD")), b.Tx(KA, kit.Conversion(A, "PEG", 500e8, "pEUR"))}}))
+				b.Add(g(drive.BlockSpec{Rates: R2()}))
+				b.Add(g(drive.BlockSpec{}))
+			},
+			window: func(b *drive.Builder) {
+				b.AddEmpty(1)
+				b.Add(g(drive.BlockSpec{Rates: R1(), TX: []fake.Entry{b.Tx(KA, kit.Conversion(A, "pUSD", 7e8, "pEUR"))}}))
+				b.Add(g(drive.BlockSpec{Rates: R2(), TX: []fake.Entry{b.Tx(KA, kit.Conversion(A, "pEUR", 3e8, "pUSD"))}}))
+				b.Add(g(drive.BlockSpec{Rates: R1()}))
+			}})
+	}
 	// concurrent entry fetches
 	for _, k := range []int{3, 4} {
 		if k == 4 && !thorough {
@@ -299,7 +329,32 @@ func c01Execute(w *World, sc c01Scenario, choices []int) *c01Exec {
 			gm.Unlock()
 		}
 	}
-	ex.out = run.Sync()
+	if sc.history {
+		if pv, e := ReadLedger(drive.DBFileOf(w.DBPath)); e != nil || pv.Bal(AddrA, "pUSD") == 0 || pv.Bal(AddrA, "pEUR") == 0 {
+			panic("harness: C01 process-history scenario: the spender is not funded at the end of the prefix")
+		}
+		// start as the node that synced the prefix (its whole in-memory state), not as a restarted one
+		d.Close()
+		cd, err := drive.Continue(run.DBPath, fake.NewNode(run.B.Chain), nil, false)
+		if err != nil {
+			panic("harness: " + err.Error())
+		}
+		cd.CacheRestore(w.Cache)
+		run.D = cd
+		for h := w.B.Chain.Tip() + 1; h <= run.B.Chain.Tip(); h++ {
+			if choose("restart-before-block", 2, 2) == 1 {
+				run.D.Close()
+				run.D = nil
+				run.Open(nil)
+			}
+			ex.out = run.SyncTo(h)
+			if !ex.out.Reached {
+				break
+			}
+		}
+	} else {
+		ex.out = run.Sync()
+	}
 	ex.dump = run.Dump(canon.Ledger)
 	ex.hash = ex.dump.Hash()
 	return ex
